@@ -66,3 +66,7 @@ check("C15", "model-based generation of operation histories over shared backend 
       "Histories of creating further backend instances (shared or own pipeline), init_processing_pipeline, loading, convert_rule and convert (including conversions failing in the pipeline, in rendering, inside a negated not-equals leaf, on a missing detection) are followed by converting a probe rule whose output prints queries, the rule's fields list and the pipeline state; the result must equal that of a new backend class with a new pipeline and cleared parse / type-hint caches.",
       "String comparison; random added-condition names normalised.",
       "DESIGN.md section 3, C15")
+check("C19", "Hypothesis (collection, validator subset/order, rule permutation, exclusions); purity snapshot, metamorphic order independence, reference-parser exactness oracle",
+      "Rule collections with adversarial detection names, unused detections, empty selectors and duplicate ids / titles / file names are validated with drawn subsets and orders of the built-in validators (those needing the network excluded): dict form and queries of every rule must be unchanged, the issue multiset must not depend on rule or validator order, and unused-detection / dangling-selector / identifier / title / file-name issues and exclusions must match an independent computation exactly.",
+      "Trusted: vf/ref/conditions.py; issue order not compared.",
+      "DESIGN.md section 3, C19")
